@@ -65,10 +65,10 @@ CHECKS["C16"] = dict(cat=MC, engine="E1 xsched (real registry + GC task + access
    text="Connections with every outcome (relayed, relayed with early data, denied, connect failed, aborted mid-transfer, handshake garbage, handshake EOF) run through the real create_context / h11c_handshake / process_request / relay with the real GC task, access log and API handlers; an observer calls /live at every position and a holder task keeps the alive or terminated lock across a scheduling point; after the last end and two GC periods: ids distinct, nothing live, history newest-first and bounded, every connection exactly once in the log, truthful listener/source/target/upstream, lifecycle grammar with exactly one terminal state, byte counters = payload relayed.",
    note="Access-log file I/O runs on tokio's blocking pool (real threads): the closing phase is executed but not branched on. Timestamps not compared. Only the HTTP-style listener path is in memory.",
    ref="DESIGN.md §3 C16")
-CHECKS["C01"] = dict(cat=MC, engine="E1 xsched (real handshake -> routing -> upstream codec -> callbacks -> copy_bidi over scripted endpoints)",
-   technique="stateless exhaustive exploration (deviation bound 1, thorough 2) of schedules, 1-byte segmentations and write windows of the real relay chain for 4 upstream codecs; exact stream equality oracle; two-tunnel isolation",
-   text="For upstream legs spoken by the real direct/HTTP/SOCKS5/SOCKS4 codecs, early data of 0-2 bytes glued to the CONNECT head, 0-2 later client messages, 0-2 origin messages (optionally glued to the upstream's reply), bufferSize 1/2/8 and back-pressure on both sides, every execution within the deviation bound must end with the origin having received exactly upstream-handshake + client payload and the client exactly the 200 head + origin payload; two concurrent tunnels with disjoint alphabets must never see each other's bytes.",
-   note="Upstream legs are harness connectors making the same calls as the real connectors after TCP connect. Few-byte payloads; splice, TLS, multi-MB transfers and the SOCKS/reverse/QUIC listeners need real sockets.",
+CHECKS["C01"] = dict(cat=MC, engine="E1 xsched (real handshake -> routing -> upstream codec -> callbacks -> copy_bidi over scripted endpoints) + E4 real binary (two-hop pairing matrix)",
+   technique="stateless exhaustive exploration (deviation bound 1, thorough 2) of schedules, 1-byte segmentations and write windows of the real relay chain for 4 upstream codecs; exact stream equality oracle; two-tunnel isolation; real-socket enumeration of the listener x connector x TLS x useSplice x bufferSize pairing matrix with bulk, early-data, origin-first and slow-receiver scripts",
+   text="For upstream legs spoken by the real direct/HTTP/SOCKS5/SOCKS4 codecs, early data of 0-2 bytes glued to the CONNECT head, 0-2 later client messages, 0-2 origin messages (optionally glued to the upstream's reply), bufferSize 1/2/8 and back-pressure on both sides, every execution within the deviation bound must end with the origin having received exactly upstream-handshake + client payload and the client exactly the 200 head + origin payload; two concurrent tunnels with disjoint alphabets must never see each other's bytes. Real sockets: 7 listeners (http, http+TLS, socks5, socks5+TLS, socks4, socks4a, reverse) x 8 connectors (direct, http, http+TLS, socks5, socks5+TLS, socks4, quic, loadbalance) through a second real hop, useSplice true/false, bufferSize 1/4096/65536: early data glued to the handshake, origin-first banner, simultaneous bulk transfer both ways with position-dependent patterns and odd write sizes, 8 MiB at a receiver that reads late (full socket buffers, short writes) ended by a half-close, concurrent bulk tunnels.",
+   note="In-memory upstream legs are harness connectors making the same calls as the real connectors after TCP connect, with few-byte payloads. E4 part: kernel scheduling uncontrolled; TPROXY and a QUIC client as first hop are out of reach.",
    ref="DESIGN.md §3 C01")
 CHECKS["C06"] = dict(cat=MC, engine="E1 xsched (HTTP CONNECT side in memory) + E4 real binary with fake upstream proxies",
    technique="stateless exhaustive schedule exploration (deviation bound 2, thorough 3) of outcome class x upstream codec with a strict HTTP response parser on the client byte stream; real-socket grid client protocol x route x upstream behaviour with strict SOCKS/HTTP reply parsing and echo round trip",
@@ -135,7 +135,7 @@ def main():
         "engines": [
             {"name": "E1 xsched", "path": "harness/src/verif/xsched.rs", "serves_properties": ["C01", "C04", "C06", "C14", "C15", "C16"], "kind_free_text": "stateless deviation-bounded DFS over task schedules and scripted environment answers of real async code"},
             {"name": "E3 loom", "path": "harness/src/verif/c17.rs", "serves_properties": ["C17"], "kind_free_text": "loom exhaustive interleavings of the real load balancer (feature loomlb => cfg(redproxy_verif_loom))"},
-            {"name": "E4 xnet", "path": "e4/", "serves_properties": ["C04", "C05", "C06", "C07", "C10", "C13", "C15", "C18", "C19"], "kind_free_text": "real-socket script/fault enumeration against the real binary (Python drivers, kernel scheduling uncontrolled)"},
+            {"name": "E4 xnet", "path": "e4/", "serves_properties": ["C01", "C04", "C05", "C06", "C07", "C10", "C13", "C15", "C18", "C19"], "kind_free_text": "real-socket script/fault enumeration against the real binary (Python drivers, kernel scheduling uncontrolled)"},
             {"name": "E2 xseq", "path": "harness/src/verif/", "serves_properties": [p for p in CHECKS], "kind_free_text": "bounded-exhaustive operation-sequence / input-shape enumeration on the real code vs reference model"},
         ],
         "checks": checks,
